@@ -289,7 +289,8 @@ def rule_datetime(ctx):
     decide(ctx, "O2.5", "DateTime rule -> strptime layout", FIELDS + "DateTimeFieldFormat.__init__", init_cell, min_cells=6)
 
     def value_cell(ch):
-        has_time = ch.choose("rule has time", [False, True])
+        rule = ch.choose("rule", ["YYYY-MM-DD", "YYYY-MM-DD hh:mm:ss", "hh:mm:ss"])
+        has_time = "hh" in rule
         format_name = ch.choose("format", ["excel", "delimited", "ods", "fixed"])
         suffix = ch.choose("cell ends with ' 00:00:00'", [False, True])
         parses = ch.choose("strptime", ["ok", "ValueError"])
@@ -303,10 +304,12 @@ def rule_datetime(ctx):
                 interp_.raise_("builtins.ValueError", "does not match")
             return parsed
 
-        interp_ = Interp(model, ch, externals={"time.strptime": strptime, "sys.exc_info": lambda i, a, k: (None, Opaque("error"), None)})
+        interp_ = Interp(model, ch, externals={"time.strptime": strptime, "sys.exc_info": lambda i, a, k: (None, Opaque("error"), None)},
+                         stubs={"cutplace.ranges.Range": stub(lambda i, a, k: Obj(model.cls("cutplace.ranges.Range"), {}))})
         world = World(model, interp_, ch)
-        field = Obj(cls, {"_has_time": has_time, "_data_format": world.data_format(format_name), "strptime_format": "LAYOUT",
-                          "human_readable_format": "RULE", "_field_name": "d"})
+        # the field is built by the repository's own constructor, so every attribute the value hook may read exists
+        field = interp_.instantiate(ClassRef(cls), ["d", False, "", rule, world.data_format(format_name)], {})
+        layout = field.attrs.get("strptime_format")
         try:
             result = interp_.call_function(model.func(FIELDS + "DateTimeFieldFormat.validated_value"), [field, value], {}, None)
             outcome = "time-tuple" if result is parsed else repr(result)
@@ -314,12 +317,12 @@ def rule_datetime(ctx):
             outcome = "raise " + exc_name(raised.value)
         strip = (not has_time) and format_name == "excel" and suffix
         wanted_text = "2012-04-01" if strip else value
-        if seen != [(wanted_text, "LAYOUT")]:
+        if seen != [(wanted_text, layout)]:
             outcome = "strptime called with %r" % (seen,)
         expected = "time-tuple" if parses == "ok" else "raise FieldValueError"
-        return ("time=%s format=%s suffix=%s strptime=%s" % (has_time, format_name, suffix, parses), outcome, expected)
+        return ("rule=%r format=%s suffix=%s strptime=%s" % (rule, format_name, suffix, parses), outcome, expected)
 
-    decide(ctx, "O2.5", "DateTime value (Excel midnight suffix, strptime)", FIELDS + "DateTimeFieldFormat.validated_value", value_cell, min_cells=32)
+    decide(ctx, "O2.5", "DateTime value (Excel midnight suffix, strptime)", FIELDS + "DateTimeFieldFormat.validated_value", value_cell, min_cells=48)
 
 
 # ------------------------------------------------------------------------------------------ O2.6
